@@ -236,6 +236,12 @@ def run_trace(cell):
     if su:
         weak = 0 if su["alN"] >= 1000000 else (1 if su["alN"] >= 100000 else 2)
         for e in ms:
+            # a hybrid within 1.5% below vJ, faster than the advertised fastest deflagration of a cell whose phase range cuts the
+            # window short, answered with the template fallback (finding C06-F3); nothing else is attributed to it
+            if ("fastest" in su and e.get("fallback") and (su.get("limHigh") or su.get("limLow")) and su["fastest"] < e["vw"] <= su["vJ"]
+                    and su["vJ"] - e["vw"] <= su["vJ"] * 15 // 1000):
+                sym.append("nearJouguetFallbackBeyondRange")
+                continue
             vb = 4 if e["vw"] <= 9000000 else (3 if e["vw"] <= 9700000 else 2)
             bound = max(1, vb - weak)
             flux_bad = min(e["dE"], e["dM"], e["dC1"], e["dC2"]) < bound
